@@ -209,9 +209,28 @@ def build():
     BSELF = ObjS("SwitchController", registered_switches=Init(reg_bounded), _active_timed_switches=Init(timed_bounded),
                  _debug_to_console=Bool, _debug_to_file=Bool)
 
+    # a registered callback "is" the callback given to remove_*: the same object, or a functools.partial that
+    # add_switch_handler_obj built around it (return_info / callback_kwargs).  SwitchController._is_callback is that
+    # relation in the code; here it is an uninterpreted relation that contains equality (its real meaning is checked
+    # natively: replay/demos/c03_removed_handler_with_info_still_fires.py, finite check)
+    CBMATCH = z3.Function("is_callback", usort("Fn"), usort("Fn"), z3.BoolSort())
+
+    def cbmatch(I, a, b):
+        ta, tb = I.force(a).t, I.force(b).t
+        return z3.Or(ta == tb, CBMATCH(ta, tb))
+
+    def is_callback_model(I, env, a, k):
+        return VBool(cbmatch(I, a[0], a[1]))
+    C.finite_checks.append(common.native_demo_check(
+        "c03_removed_handler_with_info_still_fires.py",
+        "a handler registered with return_info / callback_kwargs / plainly is gone after remove_switch_handler_obj"))
+    C.ext("SwitchController._is_callback", model=is_callback_model, pure=True,
+          trusted_reason="SwitchController._is_callback(registered, callback): equality or a partial around the callback "
+                         "(finite native check)")
+
     def _match3(I, e, callback, state, ms):
         e = I.force(e)
-        return z3.And(I.eq(e.items[1], state), I.eq(e.items[2], ms), I.eq(e.items[0], callback))
+        return z3.And(I.eq(e.items[1], state), I.eq(e.items[2], ms), cbmatch(I, e.items[0], callback))
 
     def timed_lists(I, heap):
         this = I.frames[0].env["self"].ref
@@ -262,7 +281,7 @@ def build():
         for idx, items in enumerate(reg_lists(I, I.heap)):
             for e in items:
                 o = I.force(e).ref
-                cs.append(z3.And(st == idx, I.eq(I.read_field(o, "ms"), ms), I.eq(I.read_field(o, "callback"), callback)))
+                cs.append(z3.And(st == idx, I.eq(I.read_field(o, "ms"), ms), cbmatch(I, I.read_field(o, "callback"), callback)))
         return VBool(z3.Not(z3.Or(cs + [z3.BoolVal(False)])))
     C.helpers["no_registered_match_left"] = no_registered_match_left
 
@@ -275,7 +294,7 @@ def build():
             for e in items:
                 o = I.force(e).ref
                 m = z3.And(st == idx, I.eq(I.read_field(o, "ms", heap=I.old_heap), ms),
-                           I.eq(I.read_field(o, "callback", heap=I.old_heap), callback))
+                           cbmatch(I, I.read_field(o, "callback", heap=I.old_heap), callback))
                 cs.append(z3.Implies(m, I.truth(I.read_field(o, "cancelled"))))
         return VBool(z3.And(cs + [z3.BoolVal(True)]))
     C.helpers["removed_marked_cancelled"] = removed_marked_cancelled
